@@ -99,3 +99,54 @@ pub fn stop_text(s: &Stop) -> String {
 pub fn must_not_stop(what: &str, s: &Stop) {
     prove(&format!("{}: {}", what, stop_text(s)), B::False);
 }
+
+/// Reference model of a dense matrix: explicit shape + rows of terms.
+#[derive(Clone)]
+pub struct Model {
+    pub r: usize,
+    pub c: usize,
+    pub e: Vec<Vec<Sym>>,
+}
+
+impl Model {
+    pub fn vars(p: &str, r: usize, c: usize) -> Model { Model { r, c, e: var_grid(p, r, c) } }
+    pub fn fill(r: usize, c: usize, x: Sym) -> Model { Model { r, c, e: vec![vec![x; c]; r] } }
+    pub fn from_fn(r: usize, c: usize, f: impl Fn(usize, usize) -> Sym) -> Model {
+        Model { r, c, e: (0..r).map(|i| (0..c).map(|j| f(i, j)).collect()).collect() }
+    }
+    pub fn matrix(&self) -> ohsl::Matrix<Sym> {
+        let mut m = ohsl::Matrix::<Sym>::new(self.r, self.c, Sym::lit(0.0));
+        for i in 0..self.r { for j in 0..self.c { m[(i, j)] = self.e[i][j]; } }
+        m
+    }
+    pub fn map(&self, f: impl Fn(Sym) -> Sym) -> Model { Model::from_fn(self.r, self.c, |i, j| f(self.e[i][j])) }
+    pub fn zip(&self, o: &Model, f: impl Fn(Sym, Sym) -> Sym) -> Model { Model::from_fn(self.r, self.c, |i, j| f(self.e[i][j], o.e[i][j])) }
+    pub fn transpose(&self) -> Model { Model::from_fn(self.c, self.r, |i, j| self.e[j][i]) }
+    /// The library matrix must have exactly this shape and these entries.
+    pub fn expect(&self, tag: &str, m: &ohsl::Matrix<Sym>) {
+        let ok = m.rows() == self.r && m.cols() == self.c && m.numel() == self.r * self.c;
+        prove(&format!("{}: shape is {}x{}", tag, self.r, self.c), if ok { B::True } else { B::False });
+        if !ok { return; }
+        for i in 0..self.r { for j in 0..self.c {
+            match catch(|| m[(i, j)]) {
+                Ok(x) => { prove_eq(&format!("{}: entry ({},{})", tag, i, j), x, self.e[i][j]); }
+                Err(s) => must_not_stop(&format!("{}: entry ({},{}) readable", tag, i, j), &s),
+            }
+        } }
+    }
+}
+
+pub fn expect_vec(tag: &str, v: &ohsl::Vector<Sym>, model: &[Sym]) {
+    let ok = v.size() == model.len();
+    prove(&format!("{}: length is {}", tag, model.len()), if ok { B::True } else { B::False });
+    if !ok { return; }
+    for i in 0..model.len() { prove_eq(&format!("{}: element {}", tag, i), v[i], model[i]); }
+}
+
+/// Run an operation that must succeed and hand its result to `then`.
+pub fn must<R>(tag: &str, f: impl FnOnce() -> R, then: impl FnOnce(R)) {
+    match catch(f) {
+        Ok(r) => then(r),
+        Err(s) => must_not_stop(&format!("{}: must not panic or fail", tag), &s),
+    }
+}
